@@ -137,7 +137,9 @@ RawSend(s, kind, id, size, len) ==
   /\ qend' = [qend EXCEPT ![s] = e]
   /\ tamp' = [tamp EXCEPT ![s] = IF garbage THEN MinDef(@, slen[s]) ELSE @]
   /\ tub' = [tub EXCEPT ![s] = IF garbage THEN MinDef(@, gtub) ELSE @]
-  /\ dirty' = (dirty \/ garbage \/ (isMsg /\ initend[s] = -1))
+  \* "short"/"junk": well-formed frames that are no test message (empty message, ping, unknown type,
+  \* undecodable gossip ...): the node may answer, ignore or disconnect, it must not panic
+  /\ dirty' = (dirty \/ garbage \/ (isMsg /\ initend[s] = -1) \/ kind \in {"short", "junk"})
   /\ UNCHANGED <<mode, up, given, extra, mustdrop, initrx, reading, viol>>
 
 (* the network modified stream d at offset off (not yet handed to the receiver); n bytes inserted *)
